@@ -113,7 +113,7 @@ def run_shard(spec, acc):
                                 variants.append("flap:%d" % rng.choice([2, 5, 6, 7, 10, 16]))
                             if thorough or rng.random() < 0.25:
                                 variants.append("double:%d:%s" % (
-                                    rng.randrange(1, 4),
+                                    rng.randrange(0, 4),
                                     rng.choice(["write_error", "read_error", "timeout"])))
                             for var in variants:
                                 run_case(acc, {"v1": v1, "shape": shape.name, "k": k,
@@ -377,6 +377,12 @@ def run_case(acc, c, roles=None):
         r2, e2, _ = s.request(fu.request)
         acc.count("followups_checked")
         evs = s.bus.events[mark:]
+        if e2 is not None and c["variant"].startswith("double:0:"):
+            # (initialize_device() answers a failing onboard query - the first exchange of
+            # any bring-up, also of a repair's - with "stop the manager")
+            acc.count("faults_at_the_onboard_query_of_a_repair")
+            return bad("stopped-by-a-fault-at-the-onboard-query-of-a-repair",
+                       exc=repr(e2), reply=r2)
         if e2 is not None:
             return bad("followup-exception:%s:%s" % (fu.command, type(e2).__name__),
                        exc=repr(e2))
